@@ -49,9 +49,9 @@ func (propC05) Level() string  { return "exploration" }
 func (propC05) NewParams() any { return &C05Params{} }
 func (propC05) Plan(tier string) (int, int) {
 	if tier == "thorough" {
-		return 3000000, 30000
+		return 3000000, 4000
 	}
-	return 120000, 2000
+	return 120000, 150
 }
 
 var corruptKinds = []string{"bitflip", "bitflip", "byte", "byte", "zero", "truncate", "dup", "drop", "swap", "splice", "length", "length", "length", "append"}
